@@ -16,11 +16,14 @@ passed = sum(int(x) for x in re.findall(r"test result: ok\. (\d+) passed", suite
 assert "FAILED" not in suite and passed >= 550, "suite did not pass with the change (%d)" % passed
 assert "FAILED" in with_change, "demo does not fail with the change"
 assert "FAILED" not in without and " ok" in without, "demo does not pass without the change"
-r = subprocess.run([sys.executable, os.path.join(HERE, "tools", "try_seeded.py"), os.path.join(out, "patch.diff"), "--props", "all", "--no-restore"],
-                   capture_output=True, text=True)
-if r.returncode != 0:
-    sys.exit(r.stdout + r.stderr)
-fired = json.loads(r.stdout[r.stdout.index("{"):])
+if os.environ.get("STORE_SKIP_SWEEP") == "1":
+    fired = {}          # filled in by tools/reeval_worker.py right afterwards
+else:
+    r = subprocess.run([sys.executable, os.path.join(HERE, "tools", "try_seeded.py"), os.path.join(out, "patch.diff"), "--props", "all", "--no-restore"],
+                       capture_output=True, text=True)
+    if r.returncode != 0:
+        sys.exit(r.stdout + r.stderr)
+    fired = json.loads(r.stdout[r.stdout.index("{"):])
 dst = os.path.join(HERE, "seeded", sid)
 os.makedirs(dst, exist_ok=True)
 for f in ("patch.diff", "demo.diff", "confirm.log"):
